@@ -503,9 +503,10 @@ class SGen:
                 emit("(talter (table (t %s)) (%s %s))" % (hexs(cur), r.choice(["addcol", "addcol", "addcoline"]), cd))
             elif k < 0.4 and pool:
                 new = pool.pop()
-                if "'" in new:
+                if "'" in new or any("'" in nm_ for nm_ in names):
                     # sqlite3 3.40 re-parses the rewritten schema and reads "a'b" in a key column list as an expression
-                    # (an engine quirk of RENAME COLUMN, independent of the statement text)
+                    # (an engine quirk of RENAME COLUMN, independent of the statement text): no RENAME COLUMN on a
+                    # table that has, or would get, a column name containing a single quote
                     continue
                 emit("(talter (table (t %s)) (rencol %s %s))" % (hexs(cur), hexs(r.choice(names)), hexs(new)))
             elif k < 0.5:
